@@ -41,6 +41,39 @@ def main():
     judge("terminate_missing_at_a_boundary", "Boundary", b2[:j] + b2[j + 1:], True)
     b3 = b2[:j + 1] + [dict(b2[j], k="I")] + b2[j + 1:]
     judge("data_after_terminate", "Boundary", b3, True)
+    # 5. conformance of the block heads (StartConform / BinaryConform): a real join job is accepted without drift;
+    #    a dropped output event, a receive attributed to the other side and a changed payload are located
+    from common import tlc_trace
+    jprog = gen.join_programs(random.Random(7), 1)[0]
+    jjobs = [{"id": "sj", "prog": jprog["prog"], "cfg": {"mode": "local", "par": 2}, "batch": "fixed:2", "trace": True}]
+    jres, jtraces = run_jobs(jjobs, os.path.join(wd, "j") if os.makedirs(os.path.join(wd, "j"), exist_ok=True) is None else wd)
+    jb = {"sj": jjobs[0]}
+    def drift(name, spec, recs, expect):
+        nonlocal ok
+        path = os.path.join(wd, name + ".ndjson")
+        with open(path, "w") as f:
+            for r in recs:
+                f.write(json.dumps(r) + "\n")
+        _, consumed, _, infos = tlc_trace(spec, path, wd, name)
+        d = [i for i in infos if "drift" in i]
+        good = (len(d) > 0) == expect
+        ok &= good
+        print(f"{'PASS' if good else 'FAIL'} {name}: {len(d)} drift report(s), expected {'some' if expect else 'none'}"
+              + (f" (expected '{d[0]['expected']}' at event {d[0]['index']})" if d else ""))
+    srecs = list(project.start_records(read_trace(jtraces[0]), jres, jb))
+    brecs = list(project.binary_records(read_trace(jtraces[0]), jres, jb))
+    drift("clean_start_conform", "StartConform", srecs, False)
+    drift("clean_binary_conform", "BinaryConform", brecs, False)
+    i = next(k for k, x in enumerate(srecs) if x["ev"] == "o" and x["k"] == "I")
+    drift("start_output_event_dropped", "StartConform", srecs[:i] + srecs[i + 1:], True)
+    m = json.loads(json.dumps(brecs))
+    r = next(x for x in m if x["ev"] in ("rl", "rr") and any(e["k"] == "I" for e in x["els"]))
+    r["ev"] = "rr" if r["ev"] == "rl" else "rl"
+    drift("binary_receive_from_the_other_side", "BinaryConform", m, True)
+    m = json.loads(json.dumps(brecs))
+    r = next(x for x in m if x["ev"] == "o" and x["k"] in ("L", "R"))
+    r["v"] += 1
+    drift("binary_output_payload_changed", "BinaryConform", m, True)
     print("SELFTEST", "OK" if ok else "FAILED")
     return 0 if ok else 1
 
